@@ -143,13 +143,58 @@ def _shard(args):
     return {"n": n, "ok": ok, "texts": texts, "vb": vb}
 
 
+SWEEP_QUICK = [0x00, 0x01, 0x0F, 0x10, 0x7F, 0x80, 0x81, 0xEC, 0xFF]
+
+
+def _shard_sweep(args):
+    """Operand value sweep: for the first accepted shape of every (prefix, opcode), every operand byte position takes
+    every value of the palette (all 256 in thorough) while the other bytes keep the fill."""
+    pairs, tail, values = args
+    vb = VB()
+    n = ok = texts = 0
+    seen: set = set()
+    for pre, op in pairs:
+        for d in shapes.shapes_for(pre, op, tail):
+            ins, _ = drv.py_decode(d, ADDR)
+            if ins is None:
+                continue
+            k = (1 if pre is None else 2)
+            for pos in range(k, ins.length()):
+                for v in values:
+                    dd = bytearray(d)
+                    dd[pos] = v
+                    r = judge(bytes(dd), vb, seen)
+                    n += 1
+                    if r in ("ok", "bad"):
+                        texts += 1
+                    ok += r == "ok"
+            break
+    return {"n": n, "ok": ok, "texts": texts, "vb": vb}
+
+
+def _two_operand_opcodes() -> List[int]:
+    """Opcodes whose text depends on the second PRE slot (two internal-memory operands)."""
+    out = []
+    for op in range(256):
+        a, _ = drv.py_decode(bytes([0x30, op]) + bytes.fromhex("3404050607"), ADDR)
+        b, _ = drv.py_decode(bytes([0x32, op]) + bytes.fromhex("3404050607"), ADDR)
+        if a is not None and b is not None and asm_text(a) != asm_text(b):
+            out.append(op)
+    return out
+
+
 def run(ctx) -> None:
     pres = list(drv.PRE_CHOICES) if ctx.thorough else [None, 0x32, 0x25, 0x37, 0x21]
     if ctx.seed and not ctx.thorough:
         pres.append(drv.PRE_BYTES[ctx.seed % 15])
     pairs = [(p, op) for p in dict.fromkeys(pres) for op in range(256) if not (p is None and op in drv.PRE_BYTES)]
+    two = _two_operand_opcodes()
+    # the remaining prefixes matter only where both PRE slots are used: all 15 x those opcodes in every tier
+    pairs += [(p, op) for p in drv.PRE_BYTES if p not in pres for op in two]
     tails = [bytes.fromhex("3404050607")] + ([bytes.fromhex("d4ec01fb0c")] if ctx.thorough else [])
     res = pmap(_shard, [(s, tails) for s in chunks(pairs, nproc() * 4)])
+    sweep_pairs = [(p, op) for p in (None, 0x32) for op in range(256) if not (p is None and op in drv.PRE_BYTES)]
+    res += pmap(_shard_sweep, [(s, tails[0], list(range(256)) if ctx.thorough else SWEEP_QUICK) for s in chunks(sweep_pairs, nproc() * 4)])
     for r in res:
         ctx.merge_bucket(r["vb"])
     ctx.level = "exploration"
